@@ -504,7 +504,9 @@ class SeqCheck:
                     knownhits.setdefault(cls, []).append(i)
                 else:
                     viol.append(i)
-            if proj(oi) != proj(om) or any(t[i].startswith("fail") for t in ties):
+            if tags.get("no_model"):
+                pass        # the outcome depends on the (unspecified) order in which a subject visits its observers: judged by the oracle only
+            elif proj(oi) != proj(om) or any(t[i].startswith("fail") for t in ties):
                 disagree.append(i)
             elif getattr(m, "MODEL_MUST_NOT", None) and m.MODEL_MUST_NOT in om["extra"]:
                 disagree.append(i)       # the model's own final world contradicts what the theorems say about it
